@@ -46,6 +46,18 @@ def gtInf (a : Rat) : Option Rat → Bool
 def eqInf (a : Rat) : Option Rat → Bool
   | none => false
   | some b => decide (a = b)
+/-- a possibly infinite number (`none` = `float("inf")`) against another one, and against a running extremum that is `None` before the
+    first element -/
+def ltE : Option Rat → Option Rat → Bool
+  | some a, some b => decide (a < b)
+  | some _, none => true
+  | none, _ => false
+def ltOptE (a : Option Rat) : Option (Option Rat) → Bool
+  | none => false
+  | some b => ltE a b
+def eqOptE (a : Option Rat) : Option (Option Rat) → Bool
+  | none => false
+  | some b => a == b
 
 def sweepLoop (cost : Rat) (p : Nat) : Rat → Rat → Rat → (Option Rat) → (List Nat) → List (Rat × Rat × Rat) → (Rat × Rat × Rat × (Option Rat) × (List Nat))
   | contribution, denominator, aff, best, tied, [] => (contribution, denominator, aff, best, tied)
